@@ -505,6 +505,9 @@ func (g *Gen) query(coll string, c *model.Coll, pCrit, pSort, pWindow float64) *
 			total = len(c.Docs)
 		}
 		pick := func() int {
+			if g.R.Chance(0.06) {
+				return []int{math.MaxInt, math.MaxInt - 1, math.MaxInt / 2, math.MaxInt/2 + 1, math.MinInt, math.MaxInt32}[g.R.Intn(6)]
+			}
 			switch g.R.Intn(6) {
 			case 0:
 				return -1
@@ -532,12 +535,35 @@ func (g *Gen) query(coll string, c *model.Coll, pCrit, pSort, pWindow float64) *
 }
 
 // updMap draws an update map; tag makes every affected document observably changed.
-func (g *Gen) updMap(tag bool) map[string]val.V {
+func (g *Gen) updMap(tag bool) map[string]val.V { return g.updMapFor(nil, tag) }
+
+// updMapFor prefers paths related to the collection's indexes: the indexed path
+// itself, its parent object, or a child of it.
+func (g *Gen) updMapFor(mc *model.Coll, tag bool) map[string]val.V {
 	out := map[string]val.V{}
 	n := g.R.Range(1, 2)
 	used := []string{}
 	for i := 0; i < n; i++ {
 		p := g.pickPath()
+		if mc != nil && len(mc.Indexes) > 0 && g.R.Chance(0.45) {
+			fs := mc.IndexFields()
+			f := fs[g.R.Intn(len(fs))]
+			if f == "_id" || strings.HasPrefix(f, "_id.") {
+				continue // updates of _id are generated on purpose elsewhere
+			}
+			switch g.R.Intn(3) {
+			case 0:
+				p = f
+			case 1:
+				if j := strings.LastIndexByte(f, '.'); j > 0 {
+					p = f[:j] // the parent object of an indexed dotted path
+				} else {
+					p = f
+				}
+			default:
+				p = f + "." + []string{"a", "b", "z"}[g.R.Intn(3)] // a child of the indexed field
+			}
+		}
 		if p == "_id" {
 			continue
 		}
@@ -551,7 +577,16 @@ func (g *Gen) updMap(tag bool) map[string]val.V {
 			continue
 		}
 		used = append(used, p)
-		out[p] = val.Wrap(g.value())
+		v := g.value()
+		if mc != nil && g.R.Chance(0.5) {
+			for f := range mc.Indexes {
+				if strings.HasPrefix(f, p+".") {
+					// object holding a fresh value under the indexed child path
+					v = map[string]interface{}{strings.TrimPrefix(f, p+"."): g.value()}
+				}
+			}
+		}
+		out[p] = val.Wrap(v)
 	}
 	if tag {
 		out["tag"] = val.Wrap(g.nextTag())
@@ -682,7 +717,7 @@ func (g *Gen) make(k string, m *model.DB) Op {
 	case "DeleteById":
 		return Op{K: k, Coll: coll, ID: g.pickID(mc, 0.75)}
 	case "UpdateById":
-		return Op{K: k, Coll: coll, ID: g.pickID(mc, 0.9), Upd: g.updMap(g.R.Chance(0.5)), UpdStyle: updStyles[g.R.Intn(len(updStyles))]}
+		return Op{K: k, Coll: coll, ID: g.pickID(mc, 0.9), Upd: g.updMapFor(mc, g.R.Chance(0.5)), UpdStyle: updStyles[g.R.Intn(len(updStyles))]}
 	case "ReplaceById":
 		id := g.pickID(mc, 0.9)
 		d := g.doc(false)
@@ -694,7 +729,7 @@ func (g *Gen) make(k string, m *model.DB) Op {
 			pWin = 0
 		}
 		q := g.query(coll, mc, 0.8, pSort, pWin)
-		return Op{K: k, Q: q, Upd: g.updMap(true), UpdStyle: updStyles[g.R.Intn(len(updStyles))]}
+		return Op{K: k, Q: q, Upd: g.updMapFor(mc, true), UpdStyle: updStyles[g.R.Intn(len(updStyles))]}
 	case "Delete":
 		pWin := 0.3
 		if cfg.Determ {
@@ -720,7 +755,7 @@ func (g *Gen) make(k string, m *model.DB) Op {
 	case "Import":
 		target := g.pickColl(m, g.R.Chance(0.15))
 		if len(g.files) == 0 || g.R.Chance(0.25) {
-			kinds := []string{"missing", "dir", "empty", "truncated", "notarray", "scalars", "badid", "dupid", "nullelem", "nonobject"}
+			kinds := []string{"missing", "dir", "empty", "truncated", "notarray", "scalars", "badid", "dupid", "nullelem", "nonobject", "cutboundary", "cutcomma", "openonly"}
 			g.nfiles++
 			return Op{K: k, Coll: target, File: fmt.Sprintf("bad%d.json", g.nfiles), FileKind: kinds[g.R.Intn(len(kinds))]}
 		}
@@ -749,6 +784,29 @@ var malformedIDs = []interface{}{"not-a-uuid", "123", "zzzzzzzz-zzzz-zzzz-zzzz-z
 
 // invalid draws an operation that must fail (or an id-rewrite attempt).
 func (g *Gen) invalid(m *model.DB, coll string, mc *model.Coll) Op {
+	if mc != nil && g.R.Chance(0.02) {
+		// a large batch whose offending document comes late
+		n := []int{130, 300, 1025, 1030, 1100}[g.R.Intn(5)]
+		op := Op{K: "Insert", Coll: coll}
+		for i := 0; i < n; i++ {
+			op.Docs = append(op.Docs, val.Wrap(map[string]interface{}{"_id": g.newID(), "x": int64(i)}))
+		}
+		pos := n - 1 - g.R.Intn(n/10+1)
+		d := op.Docs[pos].X.(map[string]interface{})
+		switch g.R.Intn(3) {
+		case 0:
+			d["_id"] = op.Docs[g.R.Intn(pos)].X.(map[string]interface{})["_id"]
+		case 1:
+			d["_id"] = "not-a-uuid"
+		default:
+			if len(mc.Docs) > 0 {
+				d["_id"] = g.pickID(mc, 1)
+			} else {
+				d["_id"] = "zz"
+			}
+		}
+		return op
+	}
 	switch g.R.Intn(9) {
 	case 0: // duplicate against the collection
 		if mc != nil && len(mc.Docs) > 0 {
@@ -818,6 +876,9 @@ func (g *Gen) invalid(m *model.DB, coll string, mc *model.Coll) Op {
 		q.HasLimit, q.Limit = true, 1
 		q.SortCalls = true
 		q.Sort = nil // Sort() by _id: the window is deterministic
+		if g.R.Bool() {
+			return Op{K: "UpdateFunc", Q: q, Upd: upd, UpdStyle: updStyles[g.R.Intn(len(updStyles))]}
+		}
 		return Op{K: "Update", Q: q, Upd: upd}
 	case 5: // replace with mismatching id
 		d := g.doc(true)
